@@ -2,7 +2,8 @@
 C17 - inventories: faithful write, survivable read.
   R17.1 nothing from the curated sources escapes SphinxInventory.update (reader totality on untrusted bytes)
   R17.2 line grammar: every index into the split line is protected; only ValueError leaves; the caller skips the line
-  R17.3 every decoding stage reports its failure and keeps what is still usable (complete lines of a truncated stream, decodable lines)
+  R17.3 every decoding stage reports its failure and keeps what is still usable (complete lines of a truncated stream, decodable lines);
+        the recovery feed after a damaged stream is one byte wide
   R17.4 writer/reader agreement on the line format; one line per visible object
   R17.5 the inventory lists the subjects that were written
   R17.6 a suffix that is tested for is the suffix that is replaced (the `$` abbreviation of a location)
